@@ -29,6 +29,7 @@ type EquivCase struct {
 	CTName    string `json:"ct_name"`
 	HdrName   string `json:"hdr_name"`
 	Hdr       []hv   `json:"hdr"`
+	Delivery  string `json:"delivery,omitempty"` // how both bodies are announced and handed out (delivery.go); empty = the plain one
 }
 
 var (
@@ -51,7 +52,7 @@ func renderJSON(name string, m *gt.Message) string {
 	return string(b)
 }
 
-type eqTuple [5]int // cfg, msg, rendering, ct, hdr
+type eqTuple [6]int // cfg, msg, rendering, ct, hdr, delivery
 
 func (t eqTuple) toCase() *EquivCase {
 	m := eqMsgs[t[1]]
@@ -62,8 +63,12 @@ func (t eqTuple) toCase() *EquivCase {
 			h = x
 		}
 	}
-	return &EquivCase{Kind: "equiv", Cfg: cfgs[t[0]].Name, MsgName: m.Name, PBHex: hex.EncodeToString(mustPB(m.M)),
+	c := &EquivCase{Kind: "equiv", Cfg: cfgs[t[0]].Name, MsgName: m.Name, PBHex: hex.EncodeToString(mustPB(m.M)),
 		Rendering: eqRenderings[t[2]], JSON: renderJSON(eqRenderings[t[2]], m.M), JSONCT: ct.V, CTName: ct.Name, HdrName: h.Name, Hdr: h.H}
+	if t[5] != 0 {
+		c.Delivery = delivs[t[5]].Name
+	}
+	return c
 }
 
 type unaryOutcome struct {
@@ -122,11 +127,21 @@ func checkEquiv(w *worker, c *EquivCase) ([]finding, string) {
 	if e == nil {
 		return []finding{{Clause: "bad-replay", What: "unknown cfg " + c.Cfg}}, ""
 	}
+	var dv *delivVal
+	if c.Delivery != "" && c.Delivery != delivs[0].Name {
+		if dv = delivByName(c.Delivery); dv == nil {
+			return []finding{{Clause: "bad-replay", What: "unknown delivery " + c.Delivery}}, ""
+		}
+	}
 	pb, _ := hex.DecodeString(c.PBHex)
 	path := cfg.Base + "/" + svcName + "/U"
-	op := e.do(&request{Method: "POST", Path: path, CT: ctUnary, CTPresent: true, Hdr: c.Hdr, Body: pb})
-	oj := e.do(&request{Method: "POST", Path: path, CT: c.JSONCT, CTPresent: true, Hdr: c.Hdr, Body: []byte(c.JSON)})
-	desc := fmt.Sprintf("msg=%s cfg=%s hdr=%s json-ct=%q json=%s\n    protobuf: %s\n    json:     %s", c.MsgName, c.Cfg, c.HdrName, c.JSONCT, strings.Join(strings.Fields(c.JSON), " "), op.short(), oj.short())
+	op := e.do(&request{Method: "POST", Path: path, CT: ctUnary, CTPresent: true, Hdr: c.Hdr, Body: pb, D: dv})
+	oj := e.do(&request{Method: "POST", Path: path, CT: c.JSONCT, CTPresent: true, Hdr: c.Hdr, Body: []byte(c.JSON), D: dv})
+	dn := ""
+	if dv != nil {
+		dn = " body-delivery=" + dv.Name
+	}
+	desc := fmt.Sprintf("msg=%s cfg=%s hdr=%s"+dn+" json-ct=%q json=%s\n    protobuf: %s\n    json:     %s", c.MsgName, c.Cfg, c.HdrName, c.JSONCT, strings.Join(strings.Fields(c.JSON), " "), op.short(), oj.short())
 	var fs []finding
 	add := func(clause, obs, what string) { fs = append(fs, finding{clause, obs, what + ": " + desc}) }
 	if op.Panic != "" || oj.Panic != "" {
@@ -186,6 +201,9 @@ func eqFingerprint(t eqTuple, f *finding) string {
 	if t[4] != 0 {
 		parts = append(parts, "hdr="+eqHdrs[t[4]])
 	}
+	if t[5] != 0 {
+		parts = append(parts, "delivery="+delivs[t[5]].Name)
+	}
 	if f.Obs != "" {
 		parts = append(parts, f.Obs)
 	}
@@ -204,48 +222,64 @@ func runEquiv(rep *vlib.Reporter) equivSummary {
 		}
 		return nil
 	}
+	one := func(t eqTuple) {
+		c := t.toCase()
+		fs, desc := checkEquiv(w, c)
+		sum.evals++
+		if !strings.HasPrefix(desc, "json content type spelling refused") {
+			distinct[t] = true
+		}
+		if strings.HasPrefix(desc, "NOTE details-in-request-codec") {
+			sum.notes["details-in-request-codec"]++
+		}
+		if t[0] == 0 && t[2] == 0 && t[3] == 0 && t[4] == 0 && ((t[5] == 0 && (t[1] == 1 || t[1] == 6)) || (t[1] == 1 && delivs[t[5]].Name == "wire:chunked")) {
+			sum.samples = append(sum.samples, map[string]interface{}{"class": "json==protobuf", "observed": desc})
+		}
+		for i := range fs {
+			f := &fs[i]
+			// minimize like the request check: reset axes while the clause persists
+			mt := t
+			for axis := range []int{0, 1, 2, 3, 4, 5} {
+				if axis == 1 {
+					continue
+				}
+				t2 := mt
+				t2[axis] = 0
+				if t2 == mt {
+					continue
+				}
+				if f2, _ := checkEquiv(w, t2.toCase()); has(f2, f.Clause) != nil {
+					mt = t2
+				}
+			}
+			// a delivery that is needed: walk to simpler ones while the clause persists
+			for changed := mt[5] != 0; changed; {
+				changed = false
+				for _, name := range delivs[mt[5]].Simpler {
+					t2 := mt
+					t2[5] = indexOfDeliv(name)
+					if f2, _ := checkEquiv(w, t2.toCase()); has(f2, f.Clause) != nil {
+						mt, changed = t2, true
+						break
+					}
+				}
+			}
+			mc := mt.toCase()
+			mfs, _ := checkEquiv(w, mc)
+			mf := has(mfs, f.Clause)
+			if mf == nil {
+				mt, mf, mc = t, f, c
+			}
+			rep.Violation(eqFingerprint(mt, mf), mf.What, mc)
+		}
+	}
 	for mi := range eqMsgs {
 		for ri := range eqRenderings {
 			for ti := range eqCTs {
 				for hi := range eqHdrs {
 					for ci := range cfgs {
-						t := eqTuple{ci, mi, ri, ti, hi}
-						c := t.toCase()
-						fs, desc := checkEquiv(w, c)
-						sum.evals++
-						if !strings.HasPrefix(desc, "json content type spelling refused") {
-							distinct[t] = true
-						}
-						if strings.HasPrefix(desc, "NOTE details-in-request-codec") {
-							sum.notes["details-in-request-codec"]++
-						}
-						if ci == 0 && ri == 0 && ti == 0 && hi == 0 && (mi == 1 || mi == 6) {
-							sum.samples = append(sum.samples, map[string]interface{}{"class": "json==protobuf", "observed": desc})
-						}
-						for i := range fs {
-							f := &fs[i]
-							// minimize like the request check: reset axes while the clause persists
-							mt := t
-							for axis := range []int{0, 1, 2, 3, 4} {
-								if axis == 1 {
-									continue
-								}
-								t2 := mt
-								t2[axis] = 0
-								if t2 == mt {
-									continue
-								}
-								if f2, _ := checkEquiv(w, t2.toCase()); has(f2, f.Clause) != nil {
-									mt = t2
-								}
-							}
-							mc := mt.toCase()
-							mfs, _ := checkEquiv(w, mc)
-							mf := has(mfs, f.Clause)
-							if mf == nil {
-								mt, mf, mc = t, f, c
-							}
-							rep.Violation(eqFingerprint(mt, mf), mf.What, mc)
+						for di := range delivs {
+							one(eqTuple{ci, mi, ri, ti, hi, di})
 						}
 					}
 				}
